@@ -600,7 +600,8 @@ def _child_history(case, workdir):
             if auto_flush:
                 w.flush()
         elif op['op'] == 'flush' and caps['flush']:
-            w.flush()
+            if n_acc:           # as in the judged history: a flush before the first write is not performed
+                w.flush()
         elif op['op'] == 'reopen' and fmt == 'h5':
             w.close()
             w.open('a')
